@@ -13,7 +13,7 @@ def rebuild(record):
             p = pr
     if p is None:
         raise KeyError(record["seed"])
-    ops = SE.all_ops()
+    ops = SE.all_ops(composite=True)
     for st in record.get("chain") or []:
         args = [dec_arg(a, p, env) for a in st["args"]]
         p, ex, _ = apply_op(ops[st["op"]], p, args)
